@@ -34,6 +34,8 @@ def check(c: Check):
     clause_e(c)
     clause_f(c)
     clause_g(c)
+    clause_h(c)
+    clause_i(c)
 
 
 # ---------------------------------------------------------------- a
@@ -49,7 +51,7 @@ def clause_a(c: Check):
         tid = ','.join(repr(s) for s in t.steps if s.kind == 'step' and s.raised) or (
             'no-failure' + ('' if any(s.kind == 'step' and s.phase == 'ASSERT' and kind_of[s.step] == 'MAIN'
                                       for s in t.steps) else ':act-only'))
-        sandbox_idx = [i for i, s in enumerate(t.steps) if s.kind == 'marker' and s.name in ('SANDBOX', 'CHDIR')]
+        sandbox_idx = [i for i, s in enumerate(t.steps) if s.kind == 'marker' and s.name in ('SANDBOX', 'CHDIR', 'SANDBOX_ROOT')]
         first_effect = min(sandbox_idx) if sandbox_idx else None
         exec_idx = [i for i, s in enumerate(t.steps) if s.kind == 'step' and kind_of[s.step] not in VALIDATION]
         val_idx = [i for i, s in enumerate(t.steps) if s.kind == 'step' and kind_of[s.step] in VALIDATION]
@@ -678,3 +680,135 @@ def clause_g(c: Check):
         rets = [n.value for n in walk_own(pm.node) if isinstance(n, ast.Return)]
         ok = len(rets) == 1 and isinstance(rets[0], ast.Call) and ix.callee(pm.module, pm, rets[0]) == cls
         c.expect(ok, 'C03-g', pkg + '/Parser.parse', 'Parser.parse does not build %s' % cls_name, pm.loc())
+
+
+# ---------------------------------------------------------------- h
+def clause_h(c: Check):
+    """which step validates what: everything that does not depend on the sandbox is validated before execution"""
+    ix, fo = c.ix, c.fo
+    PR = 'exactly_lib.tcfs.path_relativity'
+    dsp = fo.enum_members(ix.cls(PR + ':DirectoryStructurePartition'))
+    c.require(set(dsp) == {'HDS', 'NON_HDS'}, 'C03-h: DirectoryStructurePartition members changed: %s' % sorted(dsp))
+    # h1: PathDdv.exists_pre_sds
+    f = ix.func('exactly_lib.type_val_deps.types.path.path_ddv:PathDdv.exists_pre_sds')
+    hooks = ForkHooks(ix)
+    hooks.fork_on(lambda d, n, cv: isinstance(n.func, ast.Attribute) and n.func.attr == 'resolving_dependency', [
+        ('none', lambda: NONE), ('HDS', lambda: K(dsp['HDS'])), ('NON_HDS', lambda: K(dsp['NON_HDS']))])
+    want = {'none': True, 'HDS': True, 'NON_HDS': False}
+    seen = set()
+    for p in util.func_paths(ix, fo, f, hooks):
+        labs = labels_of(p)
+        c.require(len(labs) == 1, 'C03-h: PathDdv.exists_pre_sds asks for the dependency %d times' % len(labs))
+        seen.add(labs[0])
+        got = p.val.v if p.kind == 'return' and isinstance(p.val, K) else util.describe(p.val)
+        c.expect(got is want[labs[0]], 'C03-h', 'PathDdv.exists_pre_sds/' + labs[0],
+                 'a path whose resolving dependency is %s is %svalidated before execution' % (
+                     labs[0], '' if got is True else 'not '), f.loc())
+    c.require(seen == set(want), 'C03-h: PathDdv.exists_pre_sds outcomes: %s' % seen)
+    # h2: generic values
+    g = ix.func('exactly_lib.type_val_deps.dep_variants.ddv.dir_dependent_value:WithDirDependenciesReporting.exists_pre_sds')
+    sets = {'empty': frozenset(), 'HDS': frozenset([dsp['HDS']]), 'NON_HDS': frozenset([dsp['NON_HDS']]),
+            'both': frozenset(dsp.values())}
+    hooks = ForkHooks(ix)
+    hooks.fork_on(lambda d, n, cv: isinstance(n.func, ast.Attribute) and n.func.attr == 'resolving_dependencies',
+                  [(k, (lambda v=v: K(v))) for k, v in sets.items()])
+    want = {'empty': True, 'HDS': True, 'NON_HDS': False, 'both': False}
+    for p in util.func_paths(ix, fo, g, hooks):
+        labs = labels_of(p)
+        c.require(len(labs) == 1, 'C03-h: exists_pre_sds asks for the dependencies %d times' % len(labs))
+        got = p.val.v if p.kind == 'return' and isinstance(p.val, K) else util.describe(p.val)
+        c.expect(got is want[labs[0]], 'C03-h', 'WithDirDependenciesReporting.exists_pre_sds/' + labs[0],
+                 'a value with dependencies {%s} is %svalidated before execution' % (
+                     labs[0], '' if got is True else 'not '), g.loc())
+    # h3: dependency table
+    tab = fo.fold_path(PR + ':RESOLVING_DEPENDENCY_OF')
+    rot = fo.enum_members(ix.cls(PR + ':RelOptionType'))
+    c.require(isinstance(tab, dict), 'C03-h: RESOLVING_DEPENDENCY_OF not folded')
+    for name, m in sorted(rot.items()):
+        v = tab.get(m)
+        want_v = 'HDS' if name.startswith('REL_HDS') else 'NON_HDS'
+        c.expect(isinstance(v, EnumMember) and v.name == want_v, 'C03-h', 'RESOLVING_DEPENDENCY_OF/' + name,
+                 'relativity %s is classified as %s (expected %s)' % (name, v, want_v), PR)
+    # h4: the path validators validate in exactly one of the two steps, selected by exists_pre_sds
+    PV = 'exactly_lib.impls.types.path.path_validator'
+    for cls_name in ('PathSdvValidatorBase', 'PathDdvValidatorBase'):
+        cls = ix.cls(PV + ':' + cls_name)
+        for meth, want_when in (('validate_pre_sds_if_applicable', True), ('validate_post_sds_if_applicable', False)):
+            f = ix.class_member(cls, meth)
+            hooks = ForkHooks(ix)
+            hooks.fork_on(lambda d, n, cv: isinstance(n.func, ast.Attribute) and n.func.attr == 'exists_pre_sds',
+                          [('pre', lambda: K(True)), ('post', lambda: K(False))])
+            seen = set()
+            for p in util.func_paths(ix, fo, f, hooks):
+                labs = labels_of(p)
+                c.require(len(labs) == 1, 'C03-h: %s.%s tests exists_pre_sds %d times' % (cls_name, meth, len(labs)))
+                seen.add(labs[0])
+                validates = [e for e in p.calls() if isinstance(e.node.func, ast.Attribute)
+                             and e.node.func.attr == '_validate_path']
+                should = (labs[0] == 'pre') == want_when
+                if should:
+                    ok = len(validates) == 1 and p.kind == 'return' and isinstance(p.val, Sym) \
+                         and util.root_sym(p.val).origin and util.root_sym(p.val).origin[0] == 'call' \
+                         and util.root_sym(p.val).origin[5] == p.trace.index(validates[0])
+                    arg = validates[0].data['args'][0] if validates else None
+                    k = util.origin_call_key(util.root_sym(arg)) or ''
+                    ok = ok and k.endswith('value_pre_sds__d' if want_when else 'value_post_sds__d')
+                    c.expect(bool(ok), 'C03-h', '%s.%s/%s' % (cls_name, meth, labs[0]),
+                             'a path that exists %s the sandbox is not validated (and the result returned) in this '
+                             'step' % ('before' if want_when else 'only in'), f.loc())
+                else:
+                    ok = not validates and p.kind == 'return' and isinstance(p.val, K) and p.val.v is None
+                    c.expect(ok, 'C03-h', '%s.%s/%s' % (cls_name, meth, labs[0]),
+                             'the step validates a path that belongs to the other step', f.loc())
+            c.require(seen == {'pre', 'post'}, 'C03-h: %s.%s outcomes %s' % (cls_name, meth, seen))
+
+
+# ---------------------------------------------------------------- i
+def clause_i(c: Check):
+    """symbol validation looks at every symbol usage of every instruction"""
+    ix, fo = c.ix, c.fo
+    SV = 'exactly_lib.execution.partial_execution.impl.symbol_validation'
+    f = ix.func(SV + ':ValidateSymbolsExecutor.apply')
+    vsu = ix.func('exactly_lib.execution.impl.symbol_validation:validate_symbol_usages')
+    user = f.positional_params()[1].arg
+    paths = util.func_paths(ix, fo, f, Hooks())
+    for p in paths:
+        calls = [e for e in p.calls() if e.data['callee'] == vsu]
+        ok = len(calls) == 1
+        why = 'validate_symbol_usages is called %d times' % len(calls)
+        if ok:
+            a = calls[0].data['args'][0] if calls[0].data['args'] else calls[0].data['kwargs'].get('symbol_usages')
+            v = util.root_sym(a)
+            # list(x) / tuple(x) keep every element
+            while isinstance(v, Sym) and util.origin_call_key(v) in ('builtins.list', 'builtins.tuple') and v.origin[2]:
+                v = util.root_sym(v.origin[2][0])
+            k = util.origin_call_key(v) or ''
+            recv_ok = False
+            if isinstance(v, Sym) and v.origin and v.origin[0] == 'call' and k.endswith('.symbol_usages'):
+                recv_ok = True
+            ok = recv_ok
+            why = 'the usages given to validate_symbol_usages are %s, not all of %s.symbol_usages()' % (
+                util.describe(a), user)
+            tbl = calls[0].data['args'][1] if len(calls[0].data['args']) > 1 else None
+            base, chain = util.attr_chain(tbl)
+            ok = ok and bool(chain)
+            # and its result is what apply returns
+            ret_ok = p.kind == 'return' and isinstance(p.val, Sym) and util.root_sym(p.val).origin \
+                     and util.root_sym(p.val).origin[0] == 'call' and util.root_sym(p.val).origin[1] == vsu.key
+            if ok and not ret_ok:
+                ok, why = False, 'the result of validate_symbol_usages is not returned'
+        c.expect(ok, 'C03-i', 'ValidateSymbolsExecutor.apply/validates-all-usages', why, f.loc())
+    # validate_symbol_usage dispatches both kinds of usage and refuses anything else
+    vu = ix.func('exactly_lib.execution.impl.symbol_validation:validate_symbol_usage')
+    ref = ix.cls('exactly_lib.symbol.sdv_structure:SymbolReference')
+    dfn = ix.cls('exactly_lib.symbol.sdv_structure:SymbolDefinition')
+    for cls, target in ((ref, '_validate_symbol_reference'), (dfn, '_validate_symbol_definition')):
+        it = Interp(ix, fo, Hooks())
+        st = State()
+        usage = it.new_obj(cls)
+        outs = set()
+        for p in it.run_function(vu, args={vu.positional_params()[0].arg: usage}, st=st):
+            k = util.origin_call_key(util.root_sym(p.val)) if p.kind == 'return' else 'raises'
+            outs.add(k)
+        c.expect(outs == {'exactly_lib.execution.impl.symbol_validation:' + target}, 'C03-i',
+                 'validate_symbol_usage/' + cls.name, 'a %s is handled by %s' % (cls.name, outs), vu.loc())
